@@ -14,6 +14,9 @@ CONFIGS = {
     "set-set-deferred": dict(modes=("set", "set"), delegated=(False, False)),
     "alloc-set-deferred-getters": dict(modes=("allocate", "set"), delegated=(False, False), auto_get=False, getters=True),
     "set-set-srverror": dict(modes=("set", "set"), adversary=("srv_error",)),
+    "set-set-lossy-burst": dict(modes=("set", "set"), nmsg=(1, 1), eager=False, canon="burst", max_opens=4),
+    "alloc-set-lossy-burst": dict(modes=("allocate", "set"), nmsg=(1, 1), eager=False, canon="burst", max_opens=4),
+    "set-set-lossy-lazy": dict(modes=("set", "set"), nmsg=(1, 1), eager=False, canon="lazy", max_opens=4),
 }
 ONCE = ("code", "key", "verifier", "versions", "closed")
 RANK = {"code": 0, "key": 1, "verifier": 2, "versions": 3, "message": 3, "closed": 4}
